@@ -483,6 +483,8 @@ impl BufferTransformT for ASCII85Decode<'_> {
     fn transform(&mut self, buf: &dyn ParseBufferT) -> TransformResult {
         let loc = &buf.get_location();
         let mut stage = String::new();
+        // Number of digits of the current 5-digit group staged so far.
+        let mut in_group = 0;
 
         for b in buf.buf() {
             match b {
@@ -490,8 +492,31 @@ impl BufferTransformT for ASCII85Decode<'_> {
                 // crate's definition differs from PDF.
                 0x00 | 0x09 | 0x0A | 0x0C | 0x0D | 0x20 => continue,
 
+                // 'z' stands for a group of four zero bytes and is
+                // only legal between groups.  The ascii85 crate
+                // rejects every 'z', so expand it here.
+                0x7A => {
+                    if in_group != 0 {
+                        let err = ErrorKind::TransformError(
+                            "ASCII85Decode: misaligned z in input".to_string(),
+                        );
+                        return Err(locate_value(err, loc.loc_start(), loc.loc_end()))
+                    }
+                    stage.push_str("!!!!!")
+                },
+
+                // the '~' of the '<~' and '~>' delimiters is not
+                // part of a group.
+                0x7E => {
+                    in_group = 0;
+                    stage.push('~')
+                },
+
                 // let the crate handle EOD and illegal characters.
-                c => stage.push(*c as char),
+                c => {
+                    in_group = (in_group + 1) % 5;
+                    stage.push(*c as char)
+                },
             }
         }
 
